@@ -192,7 +192,7 @@ def one_case(ctx, rng, wd, which, inclusive=False):
         ppp = np.ones(d, dtype=int)
         frames = 1
     else:
-        snaps, inf, cell = gc.static_system(rng, d=d, K=K, frames=frames, nmin=max(3, K + 1), nmax=50 if not ctx.thorough else 90, vary_tilt=True)
+        snaps, inf, cell = gc.static_system(rng, d=d, K=K, frames=frames, nmin=max(3, K + 1), nmax=50 if not ctx.thorough else 90, vary_tilt=True, big=True)
         ppp = gc.random_mask(rng, d)
         types = snaps.snapshots[0].particle_type
     n = inf["N"]
